@@ -754,7 +754,7 @@ def pncbo(op, ifile1, ifile2, coordkeys=None, verbose=0):
             unit2 = getattr(in2var, 'units', 'unknown')
             propd['units'] = '(%s) %s (%s)' % (unit1, op, unit2)
             outval = np.ma.masked_invalid(
-                eval('in1var[...] %s in2var[...]' % op).view(np.ndarray))
+                eval('in1var[...] %s in2var[...]' % op))
             outvar = tmpfile.createVariable(
                 k, in1var.dtype.char, in1var.dimensions, fill_value=-999,
                 values=outval)
